@@ -14,6 +14,7 @@
 """Keras metric wrapper."""
 from __future__ import annotations
 
+import copy
 import dataclasses
 from typing import Any, Iterable, Protocol
 
@@ -69,8 +70,14 @@ class KerasAggregateFn(agg.AggregateFn):
 
   def create_state(self) -> KerasMetric:
     assert hasattr(self._metric, "reset_state")
-    self._metric.reset_state()
-    return self._metric
+    # Every state is an object of its own: a fresh one from the factory, or a
+    # copy of the (reset) prototype instance.
+    if is_keras_metric(self.metric):
+      state = copy.deepcopy(self._metric)
+    else:
+      state = self.metric()
+    state.reset_state()
+    return state
 
   def update_state(
       self, state: KerasMetric, *inputs: Any, **named_inputs: Any
